@@ -5,24 +5,24 @@ def c10(tier):
     runs = []
     if tier == "quick":
         for t in TOPOS_QUICK:
-            runs.append(H("c10_morph", "plain", 220, t, timeout_per_case=20))
-        runs.append(H("c10_sepinout", "plain", 120, "4,4,4,4", timeout_per_case=20))
-        runs.append(H("c10_morph", "asan", 70, "4,4,4,4", timeout_per_case=60, params=dict(maxitems=1200)))
-        runs.append(H("c10_sepinout", "asan", 30, "3,5", timeout_per_case=60, params=dict(maxitems=1200)))
+            runs.append(H("c10_morph", "plain", 300, t, timeout_per_case=20))
+        runs.append(H("c10_sepinout", "plain", 160, "4,4,4,4", timeout_per_case=20))
+        runs.append(H("c10_morph", "asan", 90, "4,4,4,4", timeout_per_case=60, params=dict(maxitems=1200)))
+        runs.append(H("c10_sepinout", "asan", 40, "3,5", timeout_per_case=60, params=dict(maxitems=1200)))
     else:
         for t in TOPOS_THOROUGH:
-            runs.append(H("c10_morph", "plain", 700, t, timeout_per_case=30))
-            runs.append(H("c10_sepinout", "plain", 250, t, timeout_per_case=30))
+            runs.append(H("c10_morph", "plain", 350, t, timeout_per_case=30))
+            runs.append(H("c10_sepinout", "plain", 120, t, timeout_per_case=30))
         for t in (None, "4,4,4,4", "3,5"):
-            runs.append(H("c10_morph", "asan", 250, t, timeout_per_case=90, params=dict(maxitems=2500)))
-        runs.append(H("c10_sepinout", "asan", 150, "4,4,4,4", timeout_per_case=90, params=dict(maxitems=2500)))
+            runs.append(H("c10_morph", "asan", 150, t, timeout_per_case=90, params=dict(maxitems=2500)))
+        runs.append(H("c10_sepinout", "asan", 80, "4,4,4,4", timeout_per_case=90, params=dict(maxitems=2500)))
         # more threads than CPUs: owners are descheduled while owning
         for cpus in (2, 4):
-            runs.append(H("c10_morph", "plain", 150, "12,12,8", cpus=cpus, timeout_per_case=120,
+            runs.append(H("c10_morph", "plain", 80, "12,12,8", cpus=cpus, timeout_per_case=120,
                           params=dict(maxitems=2500, mode="loop")))
         # TSan only as a further schedule-perturbing configuration (reports are not judged here)
-        runs.append(H("c10_morph", "tsan", 160, "4,4,4,4", timeout_per_case=180, params=dict(maxitems=1500)))
-        runs.append(H("c10_sepinout", "tsan", 60, "3,5", timeout_per_case=180, params=dict(maxitems=1500)))
+        runs.append(H("c10_morph", "tsan", 100, "4,4,4,4", timeout_per_case=180, params=dict(maxitems=1500)))
+        runs.append(H("c10_sepinout", "tsan", 40, "3,5", timeout_per_case=180, params=dict(maxitems=1500)))
     return runs
 
 
